@@ -271,9 +271,124 @@ def r3(db, rep):
     rep.floor("R3", "raw copy call sites", n, 6)
 
 
+KIND = "boa_engine::builtins::typed_array::TypedArrayKind"
+
+
+def r4(db, rep):
+    rep.rule("R4", "bytes are transferred verbatim between two typed-array views only when their element kinds are equal: in a "
+                   "function that holds two TypedArrayKind values, every raw copy lies on the equal side of an ==/!= test of "
+                   "two TypedArrayKind values (any other pair needs the per-element conversion, e.g. Int8 -> Uint8Clamped)")
+    n = 0
+    for f in db.fns.values():
+        if not f.id.startswith("boa_engine::builtins::typed_array") or "{closure" in f.id:
+            continue
+        if not (f.mentions("memcpy") or f.mentions("memmove") or f.mentions("copy_shared_to_shared")):
+            continue
+        if f.span.endswith("tests.rs") or "/tests" in f.span or "::tests::" in f.id:
+            continue
+        kinds = [i for i, t in enumerate(f.locals) if t == KIND and f.var_name(i)]
+        if len(kinds) < 2:
+            continue
+        name = cname(f.id)
+        k = 0
+        for b, t in f.calls():
+            if cn(t) not in RAW_COPIES:
+                continue
+            n += 1
+            ok = False
+            for sb in f.dominators().get(b, ()):
+                bs = bool_switch(f, sb)
+                if not bs:
+                    continue
+                fl, fb, tb = bs
+                pol, root = bool_origin(f, fl)
+                if root[0] != "call":
+                    continue
+                c = (root[2].get("rf") or callee(root[2]) or "")
+                m = c.split("::")[-1]
+                g = (root[2].get("g") or "")
+                is_kind_cmp = m in ("eq", "ne") and (g.replace(" ", "") == f"{KIND},{KIND}" or f"<{KIND} as core::cmp::PartialEq>" in c)
+                if not is_kind_cmp:
+                    continue
+                truth_is_equal = (m == "eq") == bool(pol)
+                equal, differ = (tb, fb) if truth_is_equal else (fb, tb)
+                if b in f.reach_from([equal], avoid={sb}) and b not in f.reach_from([differ], avoid={sb}):
+                    ok = True
+            rep.ob("R4", f"{name}:{cn(t).split('::')[-1]}:{k}:same-kind-only", ok,
+                   f"{name} copies raw bytes between two views ({f.loc(b)}) on a path that is not the equal side of a "
+                   f"TypedArrayKind == TypedArrayKind test: for different kinds the elements must go through "
+                   f"GetValueFromBuffer/SetValueInBuffer (Int8 -1 into Uint8Clamped is 0, not 255)", loc=f.loc(b))
+            k += 1
+    rep.floor("R4", "raw copies between two views", n, 3)
+
+
+# calls that take `&mut Context` but cannot run script (audited by reading)
+NO_SCRIPT_WITH_CONTEXT = {
+    "SliceRef::clone": "CloneArrayBuffer with the %ArrayBuffer% intrinsic as constructor: allocation only, no observable "
+                       "side effects (spec note in SetTypedArrayFromTypedArray step 19.c)",
+}
+
+
+def r5(db, rep):
+    rep.rule("R5", "a buffer-length witness is not reused after code that can run script: between the call that produced the "
+                   "`len` handed to bytes_with_len(len) (which slices the buffer to that length without looking at the current "
+                   "one) and that use there is no call taking `&mut Context` — argument conversions can detach or shrink a "
+                   "resizable buffer (RevalidateAtomicAccess and friends)")
+    n = 0
+    for f in db.fns.values():
+        if not f.id.startswith("boa_engine::builtins") or not f.mentions("bytes_with_len"):
+            continue
+        if f.span.endswith("tests.rs") or "/tests" in f.span or "::tests::" in f.id:
+            continue
+        name = cname(f.id)
+        k = 0
+        ctx_calls = None
+        for b, t in f.calls():
+            c = cn(t)
+            if c.split("::")[-1] not in ("bytes_with_len", "bytes_with_len_mut") or len(t["args"]) < 2:
+                continue
+            if c.startswith("SharedArrayBuffer::"):
+                continue          # shared buffers only grow: an old length is still inside the block
+            l = op_local(t["args"][1])
+            rs = roots(f, l) if l is not None else []
+            if any(r[0] == "arg" for r in rs) and all(r[0] in ("arg",) for r in rs):
+                continue          # accessor wrapper: the length is the caller's business (checked at the caller)
+            n += 1
+            if ctx_calls is None:
+                ctx_calls = [bb for bb, tt in f.calls() if cn(tt) not in NO_SCRIPT_WITH_CONTEXT
+                             if any(op_local(a) is not None and f.locals[op_local(a)].replace(" ", "") in
+                                    ("&mutboa_engine::context::Context", "&mutboa_engine::Context") for a in tt["args"])]
+            bad = None
+            # a length read out of a tuple/struct returned by a call: the producer is that call
+            for _ in range(4):
+                if not any(r[0] == "place" for r in rs):
+                    break
+                rs = [x for r in rs for x in ([r] if r[0] != "place" else roots(f, r[1][0]))]
+            for r in rs:
+                if r[0] != "call":
+                    continue
+                pb = r[1]
+                after = f.reach_from(f.succs(pb))
+                for cb in ctx_calls:
+                    if cb != pb and cb in after and b in f.reach_from(f.succs(cb)):
+                        bad = (pb, cb)
+                        break
+                if bad:
+                    break
+            rep.ob("R5", f"{name}:bytes_with_len:{k}:fresh-length", bad is None,
+                   f"{name} slices the buffer with a length obtained at {f.loc(bad[0]) if bad else ''} after calling "
+                   f"{cn(f.blocks[bad[1]]['t']) if bad else ''} ({f.loc(bad[1]) if bad else ''}), which can run script: a "
+                   f"valueOf that shrinks or detaches the resizable buffer makes bytes_with_len panic (`&s[..len]`) or "
+                   f"access stale bounds instead of throwing the specified TypeError/RangeError", loc=f.loc(b))
+            k += 1
+    rep.floor("R5", "bytes_with_len uses with a locally produced length", n, 6)
+
+
 def run(db, rep, tier):
     r1(db, rep)
     r2(db, rep)
     r3(db, rep)
+    r4(db, rep)
+    r5(db, rep)
     rep.assumptions += ["subslice()/subslice_mut() panic on an out-of-range start (slice indexing), they never produce a "
                         "dangling reference"]
